@@ -34,7 +34,9 @@ ASSUMPTIONS = [
     "explicit spec semantics: int c -> (c,...,c,rest), -1 -> one block, None -> keep, dict addresses axes (negative allowed), tuples verbatim",
     "'auto' block bytes may exceed the limit by array.chunk-size-tolerance (1.25) because previous_chunks is always given by rechunk (see DESIGN C16)",
 ]
-EXCLUDE = ("KF-layout-drift-over-shuffle", "KF-minmax-empty", "KF-pad-wide", "KF-tensordot-int-dtype", "KF-argext-ties-axis-none")
+from vf import exclusions as _ex
+
+EXCLUDE = _ex.ALL
 WEIGHTS = {"elemwise": 6, "elemwise2": 6, "shape": 8, "stack": 6, "index": 8, "rechunk": 22, "reduction": 5, "scan": 1, "window": 2, "map_blocks": 2, "linalg": 1}
 
 
